@@ -178,7 +178,7 @@ __CPROVER_ensures(g_dstep == 2)
 void do_handle_deferred(fsm_t* self, _Bool new_seq)
 __CPROVER_requires(g_dstep == 2 && !g_exc)                                       /*@ob C05,C10.deferred-events-retried-after-entry */
 __CPROVER_requires(g_no_msg_queue || !self->m_event_processing)                  /*@ob C04,C10.pending-events-run-after-the-step-completed */
-__CPROVER_requires(new_seq)
+__CPROVER_requires(new_seq)                                                      /*@ob C05.entering-a-machine-starts-a-new-deferral-cycle-so-its-pending-events-are-re-offered-at-once */
 __CPROVER_assigns(g_dstep, g_exc)
 __CPROVER_ensures(g_dstep == 3)
 ;
